@@ -126,6 +126,16 @@ func (g *vfGen) genC04() {
 		g.emit(fmt.Sprintf("dhist 0 %s", strings.Join(items, ",")))
 		g.emit(fmt.Sprintf("dhist 3072 %s", strings.Join(items, ",")))
 	}
+	// directed: inputs that agree up to a limit that falls inside a field a check compares (the zip signature behind a
+	// Chrome extension header, a tar checksum, a string at a fixed offset) and differ right behind it
+	for _, base := range vfDirected()["CRX"] {
+		for l := 16; l < len(base) && l < 90; l++ {
+			a := append(append([]byte{}, base[:l]...), []byte("PK\x03\x04PK\x03\x04")...)
+			b := append(append([]byte{}, base[:l]...), []byte("\x03\x04\x04\x04xxxx")...)
+			c := append(append([]byte{}, base[:l]...), []byte("K\x03\x04zz")...)
+			g.emit(fmt.Sprintf("dhist %d %s,%s,%s,%s", l, vfHex(a), vfHex(b), vfHex(c), vfHex(base[:l])))
+		}
+	}
 	// directed: an aborted separated-values scan directly before a clean table
 	{
 		rag := [][]byte{[]byte("a\tb\tc\n1\t2\t3\n4\t5\n" + strings.Repeat("6\t7\t8\n", 40)), []byte("a,b,c\n1,2,3\n4,5\n" + strings.Repeat("6,7,8\n", 40)),
